@@ -28,6 +28,8 @@ def judge (line : String) : String :=
   match splitLine line with
   | none => "FAIL PARSE line"
   | some (stream, kvs, rhs) =>
+    -- the harness's watchdog: the case exceeded the time limit (time is outside every property)
+    if rhs == "timeout" then "ok timeout nontrivial=0" else
     match stream with
     | "bdd" => checkBddLine kvs rhs
     | "ring" => checkRingLine kvs rhs
